@@ -107,10 +107,17 @@ class Gen:
     def program(self):
         for c in range(4):
             self.emit(2, f"%c{c} = arith.constant {c} : index")
+        # some modules already declare the core-index function and query it for their own use (a kernel that is partly dispatched by hand)
+        own = self.rng.random() < 0.2
+        if own:
+            self.tag += 1
+            self.emit(2, "%own = func.call @snax_cluster_core_idx() : () -> i32")
+            self.emit(2, f'"test.op"(%own) {{tag = {self.tag} : i32}} : (i32) -> ()')
         self.block(2, 1)
         self.emit(2, "func.return")
         body = "\n".join(self.lines)
-        return ("builtin.module {\n  func.func public @f(%a : memref<16xi32>, %b : memref<16xi32>, %c : memref<16xi32>, %d : memref<16xi32>, "
+        decl = "  func.func private @snax_cluster_core_idx() -> i32\n" if own else ""
+        return ("builtin.module {\n" + decl + "  func.func public @f(%a : memref<16xi32>, %b : memref<16xi32>, %c : memref<16xi32>, %d : memref<16xi32>, "
                 "%e : memref<16xi8>, %g : memref<16xi8>, %n : index, %p : i1, %q : i1) {\n" + body + "\n  }\n}\n"), body
 
 
